@@ -17,3 +17,8 @@ pub broadcast proof fn axiom_string_eq_spec(a: String, b: String)
 pub assume_specification<T, E> [core::result::Result::<T, E>::unwrap_or] (r: core::result::Result<T, E>, d: T) -> (o: T)
     where E: core::marker::Destruct, T: core::marker::Destruct,
     ensures o == (match r { Ok(v) => v, Err(_) => d });
+
+// Option::is_some_and / is_none_or / Option::as_ref are plain combinators: specified by the closure's own contract
+pub assume_specification<T, F: FnOnce(T) -> bool> [Option::<T>::is_some_and] (o: Option<T>, f: F) -> (r: bool)
+    requires o matches Some(v) ==> f.requires((v,)),
+    ensures o is None ==> !r, o matches Some(v) ==> f.ensures((v,), r);
